@@ -45,7 +45,14 @@ func c13Tunnel() (addr string, tunnels *atomic.Int64, stop func()) {
 					fmt.Fprintf(c, "HTTP/1.1 405 Method Not Allowed\r\nContent-Length: 0\r\n\r\n")
 					return
 				}
-				up, err := net.Dial("tcp", req.Host)
+				/* (Names are this proxy's to resolve: every one of them is
+				the loopback address, so that servers can be called
+				c2.example.com., bücher.example, ...) */
+				target := req.Host
+				if h, p, err := net.SplitHostPort(target); nil == err && nil == net.ParseIP(h) {
+					target = net.JoinHostPort("127.0.0.1", p)
+				}
+				up, err := net.Dial("tcp", target)
 				if nil != err {
 					fmt.Fprintf(c, "HTTP/1.1 502 Bad Gateway\r\nContent-Length: 0\r\n\r\n")
 					return
@@ -85,6 +92,11 @@ func c13Proxied(r *ev.Result, w *c13World, id func() string) {
 	and a malformed fingerprint is still refused outright. */
 	for _, sch := range []string{"HTTPS", "Https", "hTTps"} {
 		calls = append(calls, c13Call{Server: "A", Pin: "pinA", Scheme: sch}, c13Call{Server: "B", Pin: "pinA", Scheme: sch}, c13Call{Server: "A", Pin: "not-base64", Scheme: sch})
+	}
+	/* Servers called by names, in spellings that are normalised on the way
+	to the handshake (a trailing dot, an internationalised name, capitals). */
+	for _, host := range []string{"c2.example.com", "c2.example.com.", "b\u00fccher.example", "C2.Example.COM", "localhost."} {
+		calls = append(calls, c13Call{Server: "A", Pin: "pinA", Host: host}, c13Call{Server: "B", Pin: "pinA", Host: host}, c13Call{Server: "I", Pin: "pinA", Host: host})
 	}
 	for pc := range w.pins {
 		if _, pinned := w.pinKey[pc]; !pinned && "none" != pc {
